@@ -446,6 +446,17 @@ func (f *frame) emit(kind, name string, pc, goal *Term, pos token.Pos, cl *Claus
 // check emits an obligation and then assumes the goal on the path.
 func (f *frame) check(kind, name string, pc, goal *Term, pos token.Pos, cl *Clause) {
 	if isTrue(goal) {
+		if cl != nil && cl.Label != "" {
+			// a labelled contract clause that the simplifier already reduced to
+			// true is still an obligation of the property: it is recorded
+			// (decided without a solver) so that it belongs to the baseline set,
+			// and a change that makes it non-trivial and false is a VIOLATION
+			// rather than an "obligation not in the baseline"
+			o := f.emit(kind, name, pc, goal, pos, cl)
+			o.Static = true
+			o.Result = "unsat"
+			o.Solver = "simplifier"
+		}
 		return
 	}
 	f.emit(kind, name, pc, goal, pos, cl)
